@@ -701,7 +701,20 @@ TECHNIQUE = ("Coq proofs about a cursor-level model of the arg-val iterator, ran
              "the eq/cmp loops (simulation against a relational denotation of the flat layout, then order laws on "
              "lexicographic keys) + differential correspondence against the real functions under ASan/UBSan + an "
              "independent Python oracle for the laws, the per-type order, iteration and message bytes")
-LEVEL_TEXT = ("see notes/C16.md: theorem list with status")
+LEVEL_TEXT = ("For every pair/triple of well-formed argument-value lists (unbounded length, every type, arrays - also "
+              "nested - and every finite 'N x value' / range-with-delta compression; no NaN) the model's "
+              "rtosc_arg_vals_cmp is the lexicographic comparison of the keys of the written-out values and "
+              "rtosc_arg_vals_eq is 'that comparison says equal' (C16_cmp_is_key_order, C16_eq_is_key_equality); hence "
+              "reflexive, antisymmetric (cmp b a = -cmp a b), transitive incl. the strict cases, eq <-> cmp = 0 "
+              "(C16_refl/antisym/trans/eq_iff_cmp0); numbers numerically, strings lexicographically, blobs bytewise with "
+              "a proper prefix first, 'immediately' first (C16_numeric_*, C16_lexicographic, C16_blob_prefix, "
+              "C16_immediately_first); two ways of writing the same values give the same eq/cmp against every list, "
+              "compare equal to each other, iterate to exactly those values and build the same message "
+              "(C16_compress_invariant, C16_iterate_message, C16_range_arg, C16_denote_functional). All theorems hold for "
+              "every float arithmetic F and are Closed under the global context.  Proved about the code after five fix: "
+              "commits (D14, D15 and three defects found while proving: D22 transitivity around boolean arrays, D23 "
+              "out-of-bounds read for N x [array], D24 rtosc_avmessage payload indexing); the functions before the fixes "
+              "and their refuting witnesses are in coq/ArgVal/AvRegress.v.")
 LEVEL_NOTE = ("Trusted: Coq kernel, extraction (ExtrOcamlBasic), Flocq 4.1 as float arithmetic of the extracted model only, "
               "OCaml driver, harness, generator and Python oracle. The C code is modelled by hand (coq/ArgVal/AvModel.v) "
               "and related to the model only by the correspondence run.")
